@@ -19,3 +19,13 @@ claim("C11", "TLC trace validation of codec/spelling/shift/apply events + exhaus
       "and rounding noise go through the constructor, +, -, inverted(); 3-vector/homogeneous/Cartesian application is compared with Symop!ApplyRaw. "
       "The thorough tier enumerates the 34,012,224 packed codes as a prefix bounded by its time budget (evidence states the prefix).",
       "Trusts TLC, the grid projection (residual > 1e-9 is rejected as OnGrid) and the decode written in the spec. Spelling grammar = Symop!Spelling.")
+
+claim("C01", "TLC model checking of the unit-cell algorithm against the orbit + trace validation of real Crystal objects",
+      "MC_Crystal checks, for every tabulated setting and every listed site of the N=12 grid (all 1728 in the thorough tier), that the three modelled "
+      "steps of unit_cell_atoms (apply all operations identity-first, wrap, merge coincident images adding occupancies) produce exactly the symmetry "
+      "orbit with each image once and occupancy conserved. For all 530 settings, real Crystal objects with 1-4 sites (general + exact special positions, "
+      "partial occupancies, grids N=12/24/48, cells from a group-symmetrised integer Gram matrix, both cell construction routes) are built and their "
+      "unit_cell_atoms()/slab() output, projected to the grid, is validated clause by clause by TLC (orbit equality, no duplicates, [0,1), generator "
+      "operation, parent index, element/label, merged occupancy, total occupancy, Gram products of cart_pos, slab rows/cells/counts).",
+      "Fractional coordinates are projected to the 1/N grid with residual <= 1e-6 (else rejected); sites are kept on the grid so no image is near the 0.01 merge "
+      "tolerance; operation identity by packed code (C11). Cell shapes and site placements are sampled.")
